@@ -1306,7 +1306,8 @@ def ChildOk (tree : Array ParseNode) (G : Nat → Prop) (i : Nat) (child : Optio
 
 /-- node `i` exists and both its links are proper children inside `G` -/
 def Closed (tree : Array ParseNode) (G : Nat → Prop) (i : Nat) : Prop :=
-  ∃ pn, tree[i]? = some pn ∧ ChildOk tree G i pn.left ∧ ChildOk tree G i pn.right
+  ∃ pn, tree[i]? = some pn ∧ ChildOk tree G i pn.left ∧ ChildOk tree G i pn.right ∧
+    ∀ a b, pn.left = some a → pn.right = some b → a ≠ b
 
 theorem childOk_none {tree : Array ParseNode} {G : Nat → Prop} {i : Nat} {child : Option Nat} (h : child = none) :
     ChildOk tree G i child := fun c hc => by rw [h] at hc; cases hc
@@ -1350,8 +1351,8 @@ theorem vis_of_set {v : Array Bool} {c i : Nat} (h : Vis (v.setIfInBounds c true
 
 theorem closed_mono {tree : Array ParseNode} {G G' : Nat → Prop} (h : ∀ i, G i → G' i) {i : Nat} (hc : Closed tree G i) :
     Closed tree G' i := by
-  obtain ⟨pn, h1, h2, h3⟩ := hc
-  exact ⟨pn, h1, fun c hc => ⟨h c (h2 c hc).1, (h2 c hc).2⟩, fun c hc => ⟨h c (h3 c hc).1, (h3 c hc).2⟩⟩
+  obtain ⟨pn, h1, h2, h3, h4⟩ := hc
+  exact ⟨pn, h1, fun c hc => ⟨h c (h2 c hc).1, (h2 c hc).2⟩, fun c hc => ⟨h c (h3 c hc).1, (h3 c hc).2⟩, h4⟩
 
 /-- what one successful `validateChild` does -/
 theorem validateChild_spec (nodes : Array ParseNode) (index : Nat) (visited : Array Bool) (stack : Array Nat) (child : Nat) :
@@ -1443,15 +1444,23 @@ theorem validateLoop_closed (tree : Array ParseNode) : ∀ (fuel : Nat) (visited
           dsimp only at m1 sz1 cl1 nw1 st1 ⊢
           refine sat_bind (Q := fun r => (∀ i, Vis v1 i → Vis r.1 i) ∧ r.1.size = v1.size ∧
               ChildOk tree (Vis r.1) index node.right ∧
-              (∀ i, Vis r.1 i → Vis v1 i ∨ i ∈ r.2.toList) ∧ (∀ i, i ∈ s1.toList → i ∈ r.2.toList)) ?_ (fun r2 h2 => ?_)
+              (∀ i, Vis r.1 i → Vis v1 i ∨ i ∈ r.2.toList) ∧ (∀ i, i ∈ s1.toList → i ∈ r.2.toList) ∧
+              (∀ a b, node.left = some a → node.right = some b → a ≠ b)) ?_ (fun r2 h2 => ?_)
           · split
             · rename_i hl
-              exact ⟨fun _ h => h, rfl, childOk_none hl, fun i hi => Or.inl hi, fun i hi => hi⟩
+              exact ⟨fun _ h => h, rfl, childOk_none hl, fun i hi => Or.inl hi, fun i hi => hi,
+                fun a b _ hb => by rw [hl] at hb; cases hb⟩
             · rename_i c hl
               refine sat_mono (validateChild_spec tree index v1 s1 c) (fun r hr => ?_)
               obtain ⟨⟨cn, hcn, hpar⟩, hvf, hr⟩ := hr
               subst hr
-              refine ⟨fun i hi => vis_set hi, by simp, fun c' hc' => ?_, fun i hi => ?_, fun i hi => ?_⟩
+              refine ⟨fun i hi => vis_set hi, by simp, fun c' hc' => ?_, fun i hi => ?_, fun i hi => ?_, fun a b ha hb => ?_⟩
+              rotate_left 3
+              · rw [hl] at hb; cases hb
+                intro hab; subst hab
+                have := (cl1 a ha).1
+                unfold Vis at this
+                rw [hvf] at this; cases this
               · rw [hl] at hc'; cases hc'
                 exact ⟨vis_set_self hvf, cn, hcn, hpar⟩
               · rcases vis_of_set hi with h | h
@@ -1459,7 +1468,7 @@ theorem validateLoop_closed (tree : Array ParseNode) : ∀ (fuel : Nat) (visited
                 · exact Or.inl h
               · simp only [Array.toList_push, List.mem_append]; exact Or.inl hi
           · obtain ⟨v2, s2⟩ := r2
-            obtain ⟨m2, sz2, cl2, nw2, st2⟩ := h2
+            obtain ⟨m2, sz2, cl2, nw2, st2, dist⟩ := h2
             dsimp only at m2 sz2 cl2 nw2 st2 ⊢
             -- the invariant for the next iteration
             have hinv2 : VInv tree v2 s2 := by
@@ -1469,7 +1478,7 @@ theorem validateLoop_closed (tree : Array ParseNode) : ∀ (fuel : Nat) (visited
                 · rcases hinv i h' with h'' | h''
                   · rcases mem_of_back hback h'' with h3 | h3
                     · subst h3
-                      exact Or.inr ⟨node, hnode, fun c hc => ⟨m2 c (cl1 c hc).1, (cl1 c hc).2⟩, cl2⟩
+                      exact Or.inr ⟨node, hnode, fun c hc => ⟨m2 c (cl1 c hc).1, (cl1 c hc).2⟩, cl2, dist⟩
                     · exact Or.inl (st2 i (st1 i h3))
                   · exact Or.inr (closed_mono (fun j hj => m2 j (m1 j hj)) h'')
                 · exact Or.inl (st2 i h')
@@ -1547,7 +1556,7 @@ theorem validateParseTree_links {root : Nat} {tree : Array ParseNode} (h : valid
     · rw [Array.getElem?_eq_none h1] at hp; cases hp
   obtain ⟨pn, hpn, _⟩ := hG.rootParent
   refine ⟨lt_of_some hpn, G, hG.rootIn, fun i hi => ?_⟩
-  obtain ⟨pn, h1, h2, h3⟩ := hG.closed i hi
+  obtain ⟨pn, h1, h2, h3, _⟩ := hG.closed i hi
   refine ⟨pn, h1, fun c hc => ?_, fun c hc => ?_⟩
   · obtain ⟨g, cn, hcn, _⟩ := h2 c hc; exact ⟨lt_of_some hcn, g⟩
   · obtain ⟨g, cn, hcn, _⟩ := h3 c hc; exact ⟨lt_of_some hcn, g⟩
